@@ -10,7 +10,7 @@ from ..ctx import Raised
 
 PROP = 'C14'
 C_EPS = 10.0
-RULE = ('cases = dmrg_cross(f,N,eps) and function_interpolate(f,x,eps) (one argument tensor, and a list of d meshgrid tensors) on targets with exact TT ranks 1..4 (dense image of '
+RULE = ('cases = dmrg_cross(f,N,eps) and function_interpolate(f,x,eps) (one argument tensor; a list of d meshgrid tensors; a list of d coupled tensors x_j = X_j + n_j X_{j+1} that each vary along two modes) on targets with exact TT ranks 1..4 (dense image of '
         'a random TT; the function is a table lookup) and smooth targets 1/(2+sum i) (fast-decaying ranks); order 2..5, mode sizes 2..20 incl. non-uniform and smaller than '
         'rank+kick (the wide-QR regime), dense size <= 5e4, eps log-uniform in [1e-10,1e-3], k internal seeds, optional start tensor, default sweep budgets. Two monitors: '
         '(1) CALLBACK RECORDER: every argument handed to the user function is checked online - dmrg_cross: int64 2-d tensor with exactly d columns, column k in [0,N[k]); '
@@ -19,7 +19,7 @@ RULE = ('cases = dmrg_cross(f,N,eps) and function_interpolate(f,x,eps) (one argu
 ASSUMPTIONS = ['"a small multiple of eps" fixed a priori as 10*eps', 'argument tensors of function_interpolate are int-valued (xfun index tensor / integer meshgrids) so that "is an actual entry" is an exact membership test',
                'the multivariate form is used as documented: d argument tensors for d modes']
 REQUIRED_REACH = ['interpolate:dmrg_cross', 'interpolate:function_interpolate', 'interpolate:_maxvol']
-REQUIRED_COUNTS = {'routine:dmrg_cross': 1, 'routine:interp_uni': 1, 'routine:interp_multi': 1, 'callback_invocations': 100, 'callback_indices_checked': 1000, 'start:user': 1,
+REQUIRED_COUNTS = {'routine:dmrg_cross': 1, 'routine:interp_uni': 1, 'routine:interp_multi': 1, 'routine:interp_coupled': 1, 'callback_invocations': 100, 'callback_indices_checked': 1000, 'start:user': 1,
                    'regime:mode<rank+kick': 1, 'executions': 100}
 LINE_FUNCS = ['dmrg_cross', 'function_interpolate', '_maxvol']
 CASE_TIMEOUT = {'quick': 300, 'thorough': 600}
@@ -33,15 +33,15 @@ def cases(tier, seed):
     nstruct = 75 if not T else 700
     k = 2 if not T else 5
     for i in range(nstruct):
-        routine = ['dmrg_cross', 'interp_uni', 'interp_multi'][i % 3]
+        routine = ['dmrg_cross', 'interp_uni', 'interp_multi', 'interp_coupled'][i % 4]
         d = rng.choice([2, 2, 3, 3, 4, 5])
         while True:
             style = rng.choice(['small', 'mixed', 'large'])
             N = [rng.randint(2, 4) if style == 'small' else (rng.choice((2, 3, 5, 9, 14, 20)) if style == 'mixed' else rng.randint(8, 20)) for _ in range(d)]
             if dn.prod(N) <= 50000:
                 break
-        base = {'gen': 'cross', 'routine': routine, 'N': N, 'target': ['lowrank', 'lowrank', 'smooth'][(i // 3) % 3], 'R': gens.rank_profile(rng, d, 'rand', 4), 'eps': 10 ** rng.uniform(-10, -3),
-                'start': (i // 9) % 2 == 1, 'vseed': rng.randrange(2 ** 40)}
+        base = {'gen': 'cross', 'routine': routine, 'N': N, 'target': ['lowrank', 'lowrank', 'smooth'][(i // 4) % 3], 'R': gens.rank_profile(rng, d, 'rand', 4), 'eps': 10 ** rng.uniform(-10, -3),
+                'start': (i // 12) % 2 == 1, 'vseed': rng.randrange(2 ** 40)}
         for j in range(k):
             c = dict(base)
             c['sidx'] = j
@@ -126,6 +126,44 @@ def run_case(case, ctx):
             y = ctx.lib('function_interpolate(start)', lambda a, s: torchtt.interpolate.function_interpolate(fun, a, start_tens=s, **kw), xarg, start)
         else:
             y = ctx.lib('function_interpolate', lambda a: torchtt.interpolate.function_interpolate(fun, a, **kw), xarg)
+    elif routine == 'interp_coupled':
+        # argument tensors that vary along TWO modes each: x_j = X_j + n_j * X_{j+1 mod d} (int-valued, TT rank 2).  The tuple handed to f
+        # identifies the multi-index redundantly, so "the row is an actual tuple of entries" is an exact consistency test.
+        grids = torchtt.meshgrid([torch.arange(m, dtype=dt) for m in N])
+        xs = []
+        for j in range(d):
+            xj = ctx.call('TT+TT', lambda a, b: a + float(N[j]) * b, grids[j], grids[(j + 1) % d])
+            xs.append(xj)
+
+        def fun(V):
+            cb['calls'] += 1
+            if not torch.is_tensor(V) or not V.is_floating_point() or V.dim() != 2 or V.shape[1] != d:
+                flag('argument is %s, expected a float M x %d tensor' % (hooks.signature(V), d))
+                raise ValueError('malformed value matrix')
+            cb['rows'] += V.shape[0]
+            r = torch.round(V)
+            J = r.long()
+            idx = []
+            if V.shape[0]:
+                if not torch.equal(r, V):
+                    flag('row values are not entries of the argument tensors (non-integer)')
+                for j in range(d):
+                    ij = J[:, j] % N[j]                      # own mode
+                    nxt = J[:, j] // N[j]                    # the next mode, as seen by column j
+                    own_next = J[:, (j + 1) % d] % N[(j + 1) % d]
+                    if bool((nxt != own_next).any()) or int(nxt.min()) < 0 or int(nxt.max()) >= N[(j + 1) % d]:
+                        flag('row is not a tuple of entries of the argument tensors taken at ONE multi-index: column %d and column %d disagree on mode %d' % (j, (j + 1) % d, (j + 1) % d))
+                    idx.append(ij.clamp(0, N[j] - 1))
+                    cb['colmin'][j] = min(cb['colmin'][j], int(ij.min()))
+                    cb['colmax'][j] = max(cb['colmax'][j], int(ij.max()))
+            else:
+                idx = [J[:, j] for j in range(d)]
+            return Tt[tuple(idx)]
+        kw = {'eps': eps}
+        if start is not None:
+            y = ctx.lib('function_interpolate(list,start)', lambda s, *a: torchtt.interpolate.function_interpolate(fun, list(a), start_tens=s, **kw), start, *xs)
+        else:
+            y = ctx.lib('function_interpolate(list)', lambda *a: torchtt.interpolate.function_interpolate(fun, list(a), **kw), *xs)
     else:
         xs = torchtt.meshgrid([torch.arange(m, dtype=dt) for m in N])
 
